@@ -291,6 +291,104 @@ refresh_chain_contract!(refresh_chain__tail_pruned_shared_front, master = [3, 2]
 // @obl props=C05 tier=quick class=bounded fn=core::primitives::refresh_coordinate_keys shape="right absent from the master key"
 refresh_chain_contract!(refresh_chain__right_deleted, master = [], user = [2, 1], expect = []);
 
+// ---- generated: every contiguous master window x user window of a 4-secret history (thorough tier) ----
+// @obl props=C04,C05 tier=thorough class=bounded fn=core::primitives::refresh_coordinate_keys shape="master [4], user [1] (generated window)"
+refresh_chain_contract!(refresh_chain__w_m4_u1, master = [4], user = [1], expect = [4]);
+// @obl props=C04,C05 tier=thorough class=bounded fn=core::primitives::refresh_coordinate_keys shape="master [4], user [2] (generated window)"
+refresh_chain_contract!(refresh_chain__w_m4_u2, master = [4], user = [2], expect = [4]);
+// @obl props=C04,C05 tier=thorough class=bounded fn=core::primitives::refresh_coordinate_keys shape="master [4], user [2, 1] (generated window)"
+refresh_chain_contract!(refresh_chain__w_m4_u21, master = [4], user = [2, 1], expect = [4]);
+// @obl props=C04,C05 tier=thorough class=bounded fn=core::primitives::refresh_coordinate_keys shape="master [4], user [3] (generated window)"
+refresh_chain_contract!(refresh_chain__w_m4_u3, master = [4], user = [3], expect = [4]);
+// @obl props=C04,C05 tier=thorough class=bounded fn=core::primitives::refresh_coordinate_keys shape="master [4], user [3, 2] (generated window)"
+refresh_chain_contract!(refresh_chain__w_m4_u32, master = [4], user = [3, 2], expect = [4]);
+// @obl props=C04,C05 tier=thorough class=bounded fn=core::primitives::refresh_coordinate_keys shape="master [4], user [4] (generated window)"
+refresh_chain_contract!(refresh_chain__w_m4_u4, master = [4], user = [4], expect = [4]);
+// @obl props=C04,C05 tier=thorough class=bounded fn=core::primitives::refresh_coordinate_keys shape="master [4], user [4, 3] (generated window)"
+refresh_chain_contract!(refresh_chain__w_m4_u43, master = [4], user = [4, 3], expect = [4]);
+// @obl props=C04,C05 tier=thorough class=bounded fn=core::primitives::refresh_coordinate_keys shape="master [4], user [4, 3, 2] (generated window)"
+refresh_chain_contract!(refresh_chain__w_m4_u432, master = [4], user = [4, 3, 2], expect = [4]);
+// @obl props=C04,C05 tier=thorough class=bounded fn=core::primitives::refresh_coordinate_keys shape="master [4, 3], user [1] (generated window)"
+refresh_chain_contract!(refresh_chain__w_m43_u1, master = [4, 3], user = [1], expect = [4, 3]);
+// @obl props=C04,C05 tier=thorough class=bounded fn=core::primitives::refresh_coordinate_keys shape="master [4, 3], user [2] (generated window)"
+refresh_chain_contract!(refresh_chain__w_m43_u2, master = [4, 3], user = [2], expect = [4, 3]);
+// @obl props=C04,C05 tier=thorough class=bounded fn=core::primitives::refresh_coordinate_keys shape="master [4, 3], user [3] (generated window)"
+refresh_chain_contract!(refresh_chain__w_m43_u3, master = [4, 3], user = [3], expect = [4, 3]);
+// @obl props=C04,C05 tier=thorough class=bounded fn=core::primitives::refresh_coordinate_keys shape="master [4, 3], user [3, 2] (generated window)"
+refresh_chain_contract!(refresh_chain__w_m43_u32, master = [4, 3], user = [3, 2], expect = [4, 3]);
+// @obl props=C04,C05 tier=thorough class=bounded fn=core::primitives::refresh_coordinate_keys shape="master [4, 3], user [3, 2, 1] (generated window)"
+refresh_chain_contract!(refresh_chain__w_m43_u321, master = [4, 3], user = [3, 2, 1], expect = [4, 3]);
+// @obl props=C04,C05 tier=thorough class=bounded fn=core::primitives::refresh_coordinate_keys shape="master [4, 3], user [4] (generated window)"
+refresh_chain_contract!(refresh_chain__w_m43_u4, master = [4, 3], user = [4], expect = [4]);
+// @obl props=C04,C05 tier=thorough class=bounded fn=core::primitives::refresh_coordinate_keys shape="master [4, 3], user [4, 3] (generated window)"
+refresh_chain_contract!(refresh_chain__w_m43_u43, master = [4, 3], user = [4, 3], expect = [4, 3]);
+// @obl props=C04,C05 tier=thorough class=bounded fn=core::primitives::refresh_coordinate_keys shape="master [4, 3], user [4, 3, 2] (generated window)"
+refresh_chain_contract!(refresh_chain__w_m43_u432, master = [4, 3], user = [4, 3, 2], expect = [4, 3]);
+// @obl props=C04,C05 tier=thorough class=bounded fn=core::primitives::refresh_coordinate_keys shape="master [4, 3, 2], user [1] (generated window)"
+refresh_chain_contract!(refresh_chain__w_m432_u1, master = [4, 3, 2], user = [1], expect = [4, 3, 2]);
+// @obl props=C04,C05 tier=thorough class=bounded fn=core::primitives::refresh_coordinate_keys shape="master [4, 3, 2], user [2] (generated window)"
+refresh_chain_contract!(refresh_chain__w_m432_u2, master = [4, 3, 2], user = [2], expect = [4, 3, 2]);
+// @obl props=C04,C05 tier=thorough class=bounded fn=core::primitives::refresh_coordinate_keys shape="master [4, 3, 2], user [2, 1] (generated window)"
+refresh_chain_contract!(refresh_chain__w_m432_u21, master = [4, 3, 2], user = [2, 1], expect = [4, 3, 2]);
+// @obl props=C04,C05 tier=thorough class=bounded fn=core::primitives::refresh_coordinate_keys shape="master [4, 3, 2], user [3] (generated window)"
+refresh_chain_contract!(refresh_chain__w_m432_u3, master = [4, 3, 2], user = [3], expect = [4, 3]);
+// @obl props=C04,C05 tier=thorough class=bounded fn=core::primitives::refresh_coordinate_keys shape="master [4, 3, 2], user [3, 2] (generated window)"
+refresh_chain_contract!(refresh_chain__w_m432_u32, master = [4, 3, 2], user = [3, 2], expect = [4, 3, 2]);
+// @obl props=C04,C05 tier=thorough class=bounded fn=core::primitives::refresh_coordinate_keys shape="master [4, 3, 2], user [3, 2, 1] (generated window)"
+refresh_chain_contract!(refresh_chain__w_m432_u321, master = [4, 3, 2], user = [3, 2, 1], expect = [4, 3, 2]);
+// @obl props=C04,C05 tier=thorough class=bounded fn=core::primitives::refresh_coordinate_keys shape="master [4, 3, 2], user [4] (generated window)"
+refresh_chain_contract!(refresh_chain__w_m432_u4, master = [4, 3, 2], user = [4], expect = [4]);
+// @obl props=C04,C05 tier=thorough class=bounded fn=core::primitives::refresh_coordinate_keys shape="master [4, 3, 2], user [4, 3] (generated window)"
+refresh_chain_contract!(refresh_chain__w_m432_u43, master = [4, 3, 2], user = [4, 3], expect = [4, 3]);
+// @obl props=C04,C05 tier=thorough class=bounded fn=core::primitives::refresh_coordinate_keys shape="master [4, 3, 2], user [4, 3, 2] (generated window)"
+refresh_chain_contract!(refresh_chain__w_m432_u432, master = [4, 3, 2], user = [4, 3, 2], expect = [4, 3, 2]);
+// @obl props=C04,C05 tier=thorough class=bounded fn=core::primitives::refresh_coordinate_keys shape="master [4, 3, 2, 1], user [1] (generated window)"
+refresh_chain_contract!(refresh_chain__w_m4321_u1, master = [4, 3, 2, 1], user = [1], expect = [4, 3, 2, 1]);
+// @obl props=C04,C05 tier=thorough class=bounded fn=core::primitives::refresh_coordinate_keys shape="master [4, 3, 2, 1], user [2] (generated window)"
+refresh_chain_contract!(refresh_chain__w_m4321_u2, master = [4, 3, 2, 1], user = [2], expect = [4, 3, 2]);
+// @obl props=C04,C05 tier=thorough class=bounded fn=core::primitives::refresh_coordinate_keys shape="master [4, 3, 2, 1], user [2, 1] (generated window)"
+refresh_chain_contract!(refresh_chain__w_m4321_u21, master = [4, 3, 2, 1], user = [2, 1], expect = [4, 3, 2, 1]);
+// @obl props=C04,C05 tier=thorough class=bounded fn=core::primitives::refresh_coordinate_keys shape="master [4, 3, 2, 1], user [3] (generated window)"
+refresh_chain_contract!(refresh_chain__w_m4321_u3, master = [4, 3, 2, 1], user = [3], expect = [4, 3]);
+// @obl props=C04,C05 tier=thorough class=bounded fn=core::primitives::refresh_coordinate_keys shape="master [4, 3, 2, 1], user [3, 2] (generated window)"
+refresh_chain_contract!(refresh_chain__w_m4321_u32, master = [4, 3, 2, 1], user = [3, 2], expect = [4, 3, 2]);
+// @obl props=C04,C05 tier=thorough class=bounded fn=core::primitives::refresh_coordinate_keys shape="master [4, 3, 2, 1], user [3, 2, 1] (generated window)"
+refresh_chain_contract!(refresh_chain__w_m4321_u321, master = [4, 3, 2, 1], user = [3, 2, 1], expect = [4, 3, 2, 1]);
+// @obl props=C04,C05 tier=thorough class=bounded fn=core::primitives::refresh_coordinate_keys shape="master [4, 3, 2, 1], user [4] (generated window)"
+refresh_chain_contract!(refresh_chain__w_m4321_u4, master = [4, 3, 2, 1], user = [4], expect = [4]);
+// @obl props=C04,C05 tier=thorough class=bounded fn=core::primitives::refresh_coordinate_keys shape="master [4, 3, 2, 1], user [4, 3] (generated window)"
+refresh_chain_contract!(refresh_chain__w_m4321_u43, master = [4, 3, 2, 1], user = [4, 3], expect = [4, 3]);
+// @obl props=C04,C05 tier=thorough class=bounded fn=core::primitives::refresh_coordinate_keys shape="master [4, 3, 2, 1], user [4, 3, 2] (generated window)"
+refresh_chain_contract!(refresh_chain__w_m4321_u432, master = [4, 3, 2, 1], user = [4, 3, 2], expect = [4, 3, 2]);
+// @obl props=C04,C05 tier=thorough class=bounded fn=core::primitives::refresh_coordinate_keys shape="master [3], user [1] (generated window)"
+refresh_chain_contract!(refresh_chain__w_m3_u1, master = [3], user = [1], expect = [3]);
+// @obl props=C04,C05 tier=thorough class=bounded fn=core::primitives::refresh_coordinate_keys shape="master [3], user [2] (generated window)"
+refresh_chain_contract!(refresh_chain__w_m3_u2, master = [3], user = [2], expect = [3]);
+// @obl props=C04,C05 tier=thorough class=bounded fn=core::primitives::refresh_coordinate_keys shape="master [3], user [2, 1] (generated window)"
+refresh_chain_contract!(refresh_chain__w_m3_u21, master = [3], user = [2, 1], expect = [3]);
+// @obl props=C04,C05 tier=thorough class=bounded fn=core::primitives::refresh_coordinate_keys shape="master [3], user [3] (generated window)"
+refresh_chain_contract!(refresh_chain__w_m3_u3, master = [3], user = [3], expect = [3]);
+// @obl props=C04,C05 tier=thorough class=bounded fn=core::primitives::refresh_coordinate_keys shape="master [3], user [3, 2] (generated window)"
+refresh_chain_contract!(refresh_chain__w_m3_u32, master = [3], user = [3, 2], expect = [3]);
+// @obl props=C04,C05 tier=thorough class=bounded fn=core::primitives::refresh_coordinate_keys shape="master [3], user [3, 2, 1] (generated window)"
+refresh_chain_contract!(refresh_chain__w_m3_u321, master = [3], user = [3, 2, 1], expect = [3]);
+// @obl props=C04,C05 tier=thorough class=bounded fn=core::primitives::refresh_coordinate_keys shape="master [3, 2], user [1] (generated window)"
+refresh_chain_contract!(refresh_chain__w_m32_u1, master = [3, 2], user = [1], expect = [3, 2]);
+// @obl props=C04,C05 tier=thorough class=bounded fn=core::primitives::refresh_coordinate_keys shape="master [3, 2], user [2] (generated window)"
+refresh_chain_contract!(refresh_chain__w_m32_u2, master = [3, 2], user = [2], expect = [3, 2]);
+// @obl props=C04,C05 tier=thorough class=bounded fn=core::primitives::refresh_coordinate_keys shape="master [3, 2], user [3] (generated window)"
+refresh_chain_contract!(refresh_chain__w_m32_u3, master = [3, 2], user = [3], expect = [3]);
+// @obl props=C04,C05 tier=thorough class=bounded fn=core::primitives::refresh_coordinate_keys shape="master [3, 2], user [3, 2] (generated window)"
+refresh_chain_contract!(refresh_chain__w_m32_u32, master = [3, 2], user = [3, 2], expect = [3, 2]);
+// @obl props=C04,C05 tier=thorough class=bounded fn=core::primitives::refresh_coordinate_keys shape="master [3, 2, 1], user [1] (generated window)"
+refresh_chain_contract!(refresh_chain__w_m321_u1, master = [3, 2, 1], user = [1], expect = [3, 2, 1]);
+// @obl props=C04,C05 tier=thorough class=bounded fn=core::primitives::refresh_coordinate_keys shape="master [3, 2, 1], user [3] (generated window)"
+refresh_chain_contract!(refresh_chain__w_m321_u3, master = [3, 2, 1], user = [3], expect = [3]);
+// @obl props=C04,C05 tier=thorough class=bounded fn=core::primitives::refresh_coordinate_keys shape="master [3, 2, 1], user [3, 2] (generated window)"
+refresh_chain_contract!(refresh_chain__w_m321_u32, master = [3, 2, 1], user = [3, 2], expect = [3, 2]);
+// @obl props=C04,C05 tier=thorough class=bounded fn=core::primitives::refresh_coordinate_keys shape="master [3, 2, 1], user [3, 2, 1] (generated window)"
+refresh_chain_contract!(refresh_chain__w_m321_u321, master = [3, 2, 1], user = [3, 2, 1], expect = [3, 2, 1]);
+
 // ---------------------------------------------------------------------------
 // usk_keygen(rng, msk, rights)
 //   Ok  => one chain per requested right = [front of the master chain] (flavour included), ps = tracer points,
